@@ -81,6 +81,10 @@ TStatus ==
             Drained /\ \E j \in JobIds : jobs[j].st = "OK">>,
       <<"C05_status_pure", Ev.pure /\ After(Ev, trk, hsh, fs) = <<TRUE, TRUE, TRUE>> >>,
       <<"C18_unchanged_otherwise", EqT(Ev.after.hsh, hsh)>>,
+      (* C17: once the scheduler has carried out a cancellation the target is not shown as submitted or running *)
+      <<"C17_not_live_after_cancel", Ev.exit = 0 /\ \A t \in Shown(S(Ev.sel)) \cap DOMAIN Ev.table :
+                                (trk[t] # NoJob /\ jobs[trk[t]].st = "CA") => Ev.table[t] \notin {"submitted", "running"},
+                            \E t \in Shown(S(Ev.sel)) : trk[t] # NoJob /\ jobs[trk[t]].st = "CA">>,
       (* with hashing on, a target without a record, or whose spec differs from the record, is stale *)
       <<"C18_stale_by_hash", Ev.exit = 0 /\ \A t \in Shown(S(Ev.sel)) \cap DOMAIN Ev.table :
                                 (useHash /\ hsh[t] # specv[t] /\ Snap[t] \in {"U", "C"}) => Ev.table[t] = "shouldrun",
